@@ -291,16 +291,30 @@ class Lab:
         s.close()
         return port
 
-    def listen(self, port: int, policy: str = 'accept', rcvbuf: int | None = None) -> None:
-        """remote speaker listens where ExaBGP will connect (`connect <port>` in the neighbor)"""
+    @staticmethod
+    def reserve_listener(rcvbuf: int | None = None) -> socket.socket:
+        """a listening socket on a port the kernel picks, kept open from then on (no pick-then-bind race with the other labs
+        running on this machine)"""
         srv = socket.socket(socket.AF_INET, socket.SOCK_STREAM)
         srv.setsockopt(socket.SOL_SOCKET, socket.SO_REUSEADDR, 1)
         if rcvbuf:
             # a small receive window (inherited by accepted sockets): lets a remote which stops reading block ExaBGP's writer
             srv.setsockopt(socket.SOL_SOCKET, socket.SO_RCVBUF, rcvbuf)
-        srv.bind(('127.0.0.1', port))
+        srv.bind(('127.0.0.1', 0))
         srv.listen(16)
         srv.setblocking(False)
+        return srv
+
+    def listen(self, port: int, policy: str = 'accept', rcvbuf: int | None = None, srv: socket.socket | None = None) -> None:
+        """remote speaker listens where ExaBGP will connect (`connect <port>` in the neighbor)"""
+        if srv is None:
+            srv = socket.socket(socket.AF_INET, socket.SOCK_STREAM)
+            srv.setsockopt(socket.SOL_SOCKET, socket.SO_REUSEADDR, 1)
+            if rcvbuf:
+                srv.setsockopt(socket.SOL_SOCKET, socket.SO_RCVBUF, rcvbuf)
+            srv.bind(('127.0.0.1', port))
+            srv.listen(16)
+            srv.setblocking(False)
         self.servers[port] = srv
         self.accept_policy[port] = policy
 
